@@ -143,3 +143,26 @@ contract(IO + "_fillInBlanks", serves=["C04", "C02"], spec_module="spec.scalars"
                   # "the original entries are among the written ones / only blanks are added" is not proved here
                   # (inclusion through the index-carried loop was not derivable); c04_save_sweep checks it bounded
                   ("sorted", "is_sorted(tier['entries'])")])
+
+# ---- C18: zero crossings inside one block of samples (utils.find is executed from its source at the call sites)
+A = "praatio.audio."
+contract(A + "_getNearestZero", serves=["C18"], spec_module="spec.scalars",
+         configs={"reverse": [False, True]},
+         inputs=lambda S, cfg: dict(samples=S.list("samples", "int", is_tuple=True), reverse=cfg["reverse"]),
+         spec="spec.scalars.nearest_zero")
+contract(A + "_getZeroThresholdCrossing", serves=["C18"], spec_module="spec.scalars",
+         configs={"reverse": [False, True]},
+         inputs=lambda S, cfg: dict(samples=S.list("samples", "int", is_tuple=True), reverse=cfg["reverse"]),
+         spec="spec.scalars.threshold_crossing", engine_opts={"touch": True},
+         ensures=[("genuine", "result is None or (0 <= result and result < len(samples) and "
+                              "((result + 1 < len(samples) and sgn(samples[result]) != sgn(samples[result + 1])) or "
+                              "(result >= 1 and sgn(samples[result - 1]) != sgn(samples[result]))))")])
+contract(A + "_findNextZeroCrossing", serves=["C18"], spec_module="spec.scalars",
+         configs={"reverse": [False, True], "rate": [8, 8000, 44100]},
+         inputs=lambda S, cfg: dict(startTime=S.real("startTime"), samples=S.list("samples", "int", is_tuple=True),
+                                    frameRate=cfg["rate"], reverse=cfg["reverse"]),
+         spec="spec.scalars.next_zero_crossing", engine_opts={"touch": True},
+         ensures=[("within-block", "result is None or (startTime <= result and "
+                                   "result <= startTime + (len(samples) - 1) / frameRate)"),
+                  ("none-iff-no-crossing", "(result is None) == (not exists(samples, lambda x: x == 0) and "
+                                           "not exists(sign_changes(samples), lambda c: c))")])
